@@ -142,7 +142,25 @@ fn main() {
     }
 
     // ---- index.json
-    let mut j = String::from("{\n \"nfuncs\": "); write!(j, "{},\n \"configs\": {{\n", defs.len()).unwrap();
+    // content hash of every canonical definition (callee ids replaced by the callee's content hash): stable under renumbering, used by the
+    // harness to recognise that a definition is unchanged since a recorded run
+    let mut chash: Vec<u64> = Vec::with_capacity(defs.len());
+    for (text, _) in &defs {
+        use std::hash::{Hash, Hasher};
+        let mut h = std::collections::hash_map::DefaultHasher::new();
+        let b = text.as_bytes(); let mut k = 0; let mut last = 0;
+        while let Some(p) = text[k..].find("ECall ") {
+            let st = k + p + 6; let mut e = st; while e < b.len() && b[e].is_ascii_digit() { e += 1; }
+            if e > st && text[e..].starts_with("%positive") {
+                text[last..st].hash(&mut h); let id: usize = text[st..e].parse().unwrap();
+                if id >= 2 && id - 2 < chash.len() { chash[id - 2].hash(&mut h); } else { id.hash(&mut h); }      // printed id = canonical id + 1 = index in defs + 2 (1 = missing callee)
+                last = e;
+            }
+            k = st;
+        }
+        text[last..].hash(&mut h); chash.push(h.finish());
+    }
+    let mut j = String::from("{\n \"nfuncs\": "); write!(j, "{},\n \"chash\": [{}],\n \"configs\": {{\n", defs.len(), chash.iter().map(|x| format!("\"{:016x}\"", x)).collect::<Vec<_>>().join(",")).unwrap();
     for (ci, co) in outs.iter().enumerate() {
         let env = &co.env; let nfn = env.fns.len();
         write!(j, "  {}: {{\n   \"structs\": {{", jstr(&co.name)).unwrap();
